@@ -28,7 +28,7 @@ func init() {
 // runC16 is the shard driver: the register of a process cannot be reset, so
 // every history runs in its own child process (this binary, sub-mode C16H).
 func runC16(c *mon.Ctx) {
-	c.Rule("one CHILD PROCESS per history (the register cannot be reset). A history is a seeded random sequence of 12..45 operations over: RegisterProfile(new name, P1- or P2-based, sharing the JSON profile member of its base) / re-register an existing name (base profiles, earlier extras) / register a profile whose claims type has no profile field / has no json tag on it (then register the same name properly), NewClaims(registered | unregistered), DecodeClaimsFromCBOR / JSON (token of any known or not-yet-registered profile), mutate one instance (setters, writes through its pointer fields and byte slices, container Add/Replace, canonical-name overwrite), observe another. 0..8 extra profiles per history. Offline-style trace checker with model = set of successfully registered names: after EVERY registration attempt the register snapshot (hook H1) must equal the model (failed attempt: unchanged; successful: grown by exactly that entry) and a probe battery (NewClaims + CBOR decode + JSON decode for every name of the universe, registered or not) must be unchanged for every name other than the one just registered and must follow the model for that one; every created/decoded instance is a new pointer with its own container / profile pointers and its observation is unaffected by any mutation of another instance; every JSON dispatch is repeated 40x and all repetitions must agree on (error?, type, canonical profile, observation); hook H3 records the register visit order of each dispatch. Inconclusive if fewer than 2 distinct visit orders were seen. distinct_nontrivial = distinct operation-kind sequences")
+	c.Rule("one CHILD PROCESS per history (the register cannot be reset). A history is a seeded random sequence of 12..45 operations over: RegisterProfile(new name, P1- or P2-based, sharing the JSON profile member of its base) / re-register an existing name (base profiles, earlier extras) / register a profile whose claims type has no profile field / has no json tag on it (then register the same name properly), NewClaims(registered | unregistered), DecodeClaimsFromCBOR / JSON (token of any known or not-yet-registered profile, and documents declaring two profiles at once under the two profile members), mutate one instance (setters, writes through its pointer fields and byte slices, container Add/Replace, canonical-name overwrite), observe another. 0..8 extra profiles per history. Offline-style trace checker with model = set of successfully registered names: after EVERY registration attempt the register snapshot (hook H1) must equal the model (failed attempt: unchanged; successful: grown by exactly that entry) and a probe battery (NewClaims + CBOR decode + JSON decode for every name of the universe, registered or not) must be unchanged for every name other than the one just registered and must follow the model for that one; every created/decoded instance is a new pointer with its own container / profile pointers and its observation is unaffected by any mutation of another instance; every JSON dispatch is repeated 40x and all repetitions must agree on (error?, type, canonical profile, observation); hook H3 records the register visit order of each dispatch. Inconclusive if fewer than 2 distinct visit orders were seen. distinct_nontrivial = distinct operation-kind sequences")
 	self, err := os.Executable()
 	if err != nil {
 		c.Inconclusive("cannot locate own executable: " + err.Error())
@@ -187,6 +187,24 @@ func runC16History(c *mon.Ctx) {
 		}
 	}
 	universe := append([]*c16Cand{mk(model.P1Name, 1), mk(model.P2Name, 2), mk("http://example.com/never-registered", 2), mk("PSA_IOT_PROFILE_NEVER", 1)}, cands...)
+	{
+		// documents that declare a profile under BOTH profile members: whatever the outcome
+		// is (error, or one of the two), it must be the same on every call
+		a := g.Valid(1)
+		a.Profile = model.SP(model.P1Name)
+		both := func(name, eat string) {
+			ms := append(a.JSONMembers(), model.Member{Name: "eat-profile", Value: `"` + eat + `"`})
+			w := a.WireCBOR()
+			w.Items = append(w.Items, refcbor.I(model.P2KProfile), refcbor.Tstr(eat))
+			universe = append(universe, &c16Cand{name: name, base: 1, cbor: refcbor.Encode(w), json: model.MembersJSON(ms)})
+		}
+		both("(P1 and P2 declared)", model.P2Name)
+		for _, cd := range cands[:3] {
+			if cd.base == 2 {
+				both("(P1 and "+cd.name+" declared)", cd.name)
+			}
+		}
+	}
 	{
 		// a P1 token without explicit profile
 		a := g.Valid(1)
@@ -405,7 +423,8 @@ func runC16History(c *mon.Ctx) {
 					return
 				}
 				for k, v := range now {
-					affected := err == nil && strings.HasSuffix(k, "|"+name)
+					// tokens declaring the registered profile (alone or next to another one) are the ones that may change
+					affected := err == nil && (strings.HasSuffix(k, "|"+name) || strings.Contains(k, " and "+name+" declared)"))
 					if !affected && last[k] != v {
 						fail("lookup-changed-by-registration/"+what+"/"+strings.SplitN(k, "|", 2)[0], fmt.Sprintf("after Register(%s %q) the outcome of %s changed: %.160s -> %.160s", what, name, k, last[k], v), nil)
 						stop = true
